@@ -475,6 +475,7 @@ func (c *wsConn) handleChanClose(frame frame) {
 func (c *wsConn) handleResponse(frame frame) {
 	c.inflightLk.Lock()
 	req, ok := c.inflight[frame.ID]
+	vpoint(c, "resp.lookup.lk", "id", frame.ID, "found", ok)
 	c.inflightLk.Unlock()
 	vpoint(c, "resp.lookup", "id", frame.ID, "found", ok)
 	if !ok {
